@@ -78,8 +78,13 @@ func (x *c18Exec) mapLookup(fr *c18Frame, m c18Val, ix *ast.IndexExpr) (c18Val, 
 // a lookup in a literal map.
 func (x *c18Exec) evalMulti(fr *c18Frame, e ast.Expr, n int) c18Val {
 	if ix, ok := ast.Unparen(e).(*ast.IndexExpr); ok && n == 2 {
-		if m := x.eval(fr, ix.X); m.k == c18KMap {
+		switch m := x.eval(fr, ix.X); m.k {
+		case c18KMap:
 			v, found := x.mapLookup(fr, m, ix)
+			return c18Val{k: c18KTuple, elems: []c18Val{v, found}}
+		case c18KKeyIdx:
+			mt, _ := x.info.TypeOf(ix.X).Underlying().(*types.Map)
+			v, found := x.keyLookup(m.ki, x.eval(fr, ix.Index), ix, mt.Elem())
 			return c18Val{k: c18KTuple, elems: []c18Val{v, found}}
 		}
 	}
